@@ -35,27 +35,31 @@ impl TypeFilter {
 impl Exec for TypeFilter {
     fn exec(&self, interpreter: &mut Interpreter) -> ExecResult {
         let iterator = self.iterator.exec(interpreter)?;
-        let mut interpreter = interpreter.create_layer();
-        interpreter.insert("iterator".into(), iterator);
         let default_value = Variable::of_type(&self.var_type).unwrap();
-        interpreter.insert("default".into(), default_value);
-        Ok(Code::parse(
-            &interpreter,
+        // the source iterator is a parameter with a declared type, so that the
+        // generated code type-checks whatever the run-time type of the iterator is
+        let filter = Code::parse(
+            &Interpreter::without_stdlib(),
             &format!(
-                "() -> (bool, {}) {{
-                    loop {{
-                        res := iterator();
-                        (con, value) := res;
-                        if !con return (false, default);
-                        if value:{0} = value return (true, value);
+                "(iterator: () -> (bool, any), default: {0}) -> () -> (bool, {0}) {{
+                    return () -> (bool, {0}) {{
+                        loop {{
+                            res := iterator();
+                            (con, value) := res;
+                            if !con return (false, default);
+                            if value:{0} = value return (true, value);
+                        }}
+                        return (false, default);
                     }}
-                    return (false, default);
                 }}",
                 self.var_type
             ),
         )
         .unwrap()
-        .exec()?)
+        .exec()?
+        .into_function()
+        .unwrap();
+        Ok(filter.exec_with_args(&[iterator, default_value])?)
     }
 }
 
